@@ -71,9 +71,23 @@ def check_plane_reader(ctx, rule, f):
             n_src += 1
             if p is None:
                 raise AnalysisError('%s: source inline ordinal `%s` does not normalise' % (f.qualname, U(inner)))
-            if p in (ord_real, ord_last):
+            # which side of `i < <real items of the group>` is this read on?
+            side = None
+            q, child = parent(n), n
+            while q is not None and q is not f.node:
+                if isinstance(q, ast.If) and isinstance(q.test, ast.Compare) and len(q.test.ops) == 1 and \
+                        isinstance(q.test.ops[0], ast.Lt) and U(q.test.left) == 'i' and U(q.test.comparators[0]) == 'planes_to_read':
+                    side = 'real' if any(child is s_ or any(child is x for x in ast.walk(s_)) for s_ in q.body) else 'pad'
+                child, q = q, parent(q)
+            want_p = {'real': (ord_real,), 'pad': (ord_last,)}.get(side, (ord_real, ord_last))
+            if p in want_p:
                 ctx.ok(rule, f, n, 'source inline ordinal = window origin + set*bs0 + %s' % ('i' if p == ord_real else 'last real item'),
                        sample={'poly': repr(p)})
+            elif p in (ord_real, ord_last):
+                ctx.fail(rule, f, enclosing_stmt(n), 'source inline ordinal `%s` = %r is read on the %s side of `i < planes_to_read`: '
+                         '%s' % (U(inner)[:60], p, 'padding' if side == 'pad' else 'real-data',
+                                 'padding planes must repeat the last real plane of the group (planes_to_read - 1)'
+                                 if side == 'pad' else 'real planes must be read at ordinal i'), line=n.lineno)
             else:
                 miss = 'it lacks the inline origin of the window (geom.ilines[0])' if 'O_IL' not in p.atoms() else 'unexpected form'
                 ctx.fail(rule, f, enclosing_stmt(n), 'source inline ordinal `%s` = %r: %s; a windowed conversion reads the wrong '
